@@ -2,7 +2,7 @@
    Theorems: the bookkeeping that the property rests on (slot allocator and string pool models).  The ledger of
    actual allocator calls is observed on the library by the instrumented-allocator run of this check. *)
 From Coq Require Import NArith List Bool.
-From AJ Require Import Model.Base Model.Pool Proofs.PoolProofs.
+From AJ Require Import Model.Base Model.Pool Proofs.PoolProofs Model.Collection Proofs.CollProofs.
 Local Open Scope N_scope.
 
 (* when no allocation fails — and also when some do — slots released by a removal are reused by later insertions
@@ -41,6 +41,24 @@ Print Assumptions C06_string_pool_invariant.
 Theorem C06_clear_returns_everything : forall g p, pl_clear g p = pl_init g.
 Proof. exact clear_resets. Qed.
 Print Assumptions C06_clear_returns_everything.
+
+(* calls to the user's allocator (Model/Collection.v: alloc_with says which calls allocSlot makes; the call counts are
+   compared with the library's on every operation of the correspondence run) *)
+Theorem C06_reuse_makes_no_allocator_call : forall g fails p id rest, free_list p = id :: rest ->
+  alloc_with g fails p = (alloc_slot g true true p, fails) /\ fst (alloc_slot g true true p) = Some id.
+Proof. exact reuse_makes_no_allocator_call. Qed.
+Print Assumptions C06_reuse_makes_no_allocator_call.
+
+Theorem C06_at_most_two_calls_per_slot : forall g fails p r fl, alloc_with g fails p = (r, fl) ->
+  exists used, fails = used ++ fl /\ (length used <= 2)%nat.
+Proof. exact alloc_with_calls_bounded. Qed.
+Print Assumptions C06_at_most_two_calls_per_slot.
+
+Theorem C06_removals_make_no_call : forall g s k,
+  snd (astep g s (ARemove k)) = O /\ snd (astep g s (ORemove k)) = O
+  /\ snd (astep g s AClear) = O /\ snd (astep g s AShrink) = O.
+Proof. exact read_only_ops_make_no_call. Qed.
+Print Assumptions C06_removals_make_no_call.
 
 Example C06_example : sp_wf (sp_add [97] (sp_add [98] (sp_add [97] []))) /\
                       sp_refs [97] (sp_add [97] (sp_add [98] (sp_add [97] []))) = 2.
